@@ -67,6 +67,7 @@ def handlers : List (String × (Json → Except String Json)) := [
   ("C01.dia_abs", Qv.Drv.C01.diaAbsJ),
   ("C01.matmul_dia", Qv.Drv.C01.matmulDiaJ),
   ("C01.transpose_dia", Qv.Drv.C01.transposeDiaJ),
+  ("C01.iadd_dense", Qv.Drv.C01.iaddDenseJ),
   ("C01.dia_of_dense", Qv.Drv.C01.diaOfDenseJ)
 ]
 
